@@ -14,23 +14,26 @@ Open Scope Z_scope.
 
 Definition C37_configs : list config := all_configs gen_tables.
 
-(* what it means to be in the set: a registered policy, a mode the policy has a security level for, an RSA key of
-   1024/2048/3072/4096 bits that the policy's asymmetric constructor accepts (no key for mode None), and a token type
-   (anonymous / user name) the selected endpoint advertises *)
+(* what it means to be in the set: a registered policy, a mode the policy has a security level for, a CLIENT key and a
+   SERVER key of 1024/2048/3072/4096 bits (chosen independently) that the policy's asymmetric constructor accepts on
+   both ends (no keys for mode None), and a token type (anonymous / user name) the selected endpoint advertises *)
 Theorem C37_configs_spec : forall c, In c C37_configs <->
   In (c_pol c) supported_policies /\ In (c_mode c) [1; 2; 3] /\ 0 < level_of security_levels (c_pol c) (c_mode c) /\
-  In (c_kb c) (key_choices gen_tables (c_pol c) (c_mode c)) /\ token_advertised gen_tables c = true.
+  In (c_kb c, c_skb c) (key_pairs gen_tables (c_pol c) (c_mode c)) /\ token_advertised gen_tables c = true.
 Proof. intro c. exact (in_all_configs gen_tables c). Qed.
 
-(* the finite bound: 53 configurations (2 old policies x 2 modes x 2 key sizes x 2 tokens, 3 SHA-256 policies x 2 modes
-   x 3 key sizes x 2 tokens, None x anonymous; a server enabling only None does not advertise a user-name token) *)
-Theorem C37_bound : List.length C37_configs = 53%nat.
+(* the finite bound: 141 configurations (2 old policies x 2 modes x 2x2 client/server key sizes x 2 tokens, 3 SHA-256
+   policies x 2 modes x 3x3 key sizes x 2 tokens, None x anonymous; a server enabling only None does not advertise a
+   user-name token) *)
+Theorem C37_bound : List.length C37_configs = 141%nat.
 Proof. vm_compute. reflexivity. Qed.
 
 (* the key sizes the constructors accept are exactly the Part 7 limits of each profile, the channel nonce each
    constructor produces has the profile's SecureChannelNonceLength *)
 Theorem C37_limits_match_part7 :
-  forallb (fun pol => forallb (fun kb => Bool.eqb (asym_accept (t_rows gen_tables) pol kb) (spec_key_ok pol kb)) key_sizes)
+  forallb (fun pol => forallb (fun p => Bool.eqb (asym_accept (t_rows gen_tables) pol (fst p) (snd p))
+                                                 (spec_key_ok pol (fst p) && spec_key_ok pol (snd p)))
+                               (list_prod key_sizes key_sizes))
           (filter (fun p => negb (String.eqb p "None")) supported_policies) = true.
 Proof. vm_compute. reflexivity. Qed.
 
@@ -44,15 +47,21 @@ Theorem C37_every_config : forall c, In c C37_configs -> connect_ok gen_tables c
 Proof. exact (proj1 (forallb_forall _ _) C37_all). Qed.
 
 (* restated without reference to the enumeration *)
-Theorem C37_statement : forall pol mode kb t,
+Theorem C37_statement : forall pol mode ckb skb t,
   In pol supported_policies -> In mode [1; 2; 3] -> 0 < level_of security_levels pol mode ->
-  In kb (key_choices gen_tables pol mode) ->
-  token_advertised gen_tables {| c_pol := pol; c_mode := mode; c_kb := kb; c_tok := t |} = true ->
-  connect_ok gen_tables {| c_pol := pol; c_mode := mode; c_kb := kb; c_tok := t |} = true.
+  In (ckb, skb) (key_pairs gen_tables pol mode) ->
+  token_advertised gen_tables {| c_pol := pol; c_mode := mode; c_kb := ckb; c_skb := skb; c_tok := t |} = true ->
+  connect_ok gen_tables {| c_pol := pol; c_mode := mode; c_kb := ckb; c_skb := skb; c_tok := t |} = true.
 Proof.
-  intros pol mode kb t Hp Hm Hl Hk Ha. apply C37_every_config. apply C37_configs_spec.
-  cbn [c_pol c_mode c_kb c_tok]. auto.
+  intros pol mode ckb skb t Hp Hm Hl Hk Ha. apply C37_every_config. apply C37_configs_spec.
+  cbn [c_pol c_mode c_kb c_skb c_tok]. auto.
 Qed.
+
+(* the OpenSecureChannel chunk survives every combination of sender and receiver key size (real signAndEncrypt and
+   verifyAndDecrypt, run by the translator with a toy cipher of RSA's block and signature sizes) *)
+Theorem C37_opn_chunk_all_key_size_pairs :
+  forallb (fun p => chunk_rt gen_tables (fst p) (snd p)) (list_prod key_sizes key_sizes) = true.
+Proof. vm_compute. reflexivity. Qed.
 
 (* facts that hold for EVERY server configuration (any list of enabled pairs), not just the matrix *)
 Theorem C37_enabled_pair_is_advertised : forall pairs pol mode,
@@ -69,19 +78,19 @@ Proof. intros pairs ep H. apply (anon_resolvable (t_levels gen_tables) pairs ep)
    Basic128Rsa15 first and holds a 4096-bit key lists username_basic128rsa15 first; SecurityFromEndpoint takes it and
    the password cannot be encrypted, on the Basic256Sha256 endpoint too) are all rejected by the model *)
 Example C37_nonvacuous :
-  In {| c_pol := "Basic256Sha256"; c_mode := 3; c_kb := 512; c_tok := TUser |} C37_configs /\
-  In {| c_pol := "Basic128Rsa15"; c_mode := 2; c_kb := 128; c_tok := TAnon |} C37_configs /\
-  connect_ok gen_tables {| c_pol := "Basic256Sha256"; c_mode := 3; c_kb := 128; c_tok := TAnon |} = false /\
-  connect_ok gen_tables {| c_pol := "Basic128Rsa15"; c_mode := 2; c_kb := 512; c_tok := TAnon |} = false /\
-  connect_ok gen_tables {| c_pol := "Basic256"; c_mode := 1; c_kb := 256; c_tok := TAnon |} = false.
-Proof. vm_compute. repeat split; auto 60. Qed.
+  In (512, 256) (key_pairs gen_tables "Basic256Sha256" 3) /\ In (128, 256) (key_pairs gen_tables "Basic128Rsa15" 2) /\
+  token_advertised gen_tables {| c_pol := "Basic256Sha256"; c_mode := 3; c_kb := 512; c_skb := 256; c_tok := TUser |} = true /\
+  connect_ok gen_tables {| c_pol := "Basic256Sha256"; c_mode := 3; c_kb := 128; c_skb := 256; c_tok := TAnon |} = false /\
+  connect_ok gen_tables {| c_pol := "Basic128Rsa15"; c_mode := 2; c_kb := 256; c_skb := 512; c_tok := TAnon |} = false /\
+  connect_ok gen_tables {| c_pol := "Basic256"; c_mode := 1; c_kb := 256; c_skb := 256; c_tok := TAnon |} = false.
+Proof. vm_compute. repeat split; auto 20. Qed.
 
 Example C37_mixed_server_edge :
   let pairs := [ {| sc_pol := "None"; sc_mode := 1 |}; {| sc_pol := "Basic128Rsa15"; sc_mode := 2 |};
                  {| sc_pol := "Basic256Sha256"; sc_mode := 2 |} ] in
-  connect_ok_on gen_tables pairs {| c_pol := "Basic256Sha256"; c_mode := 2; c_kb := 512; c_tok := TUser |} = false /\
-  connect_ok_on gen_tables pairs {| c_pol := "Basic256Sha256"; c_mode := 2; c_kb := 512; c_tok := TAnon |} = true /\
-  connect_ok_on gen_tables pairs {| c_pol := "Basic256Sha256"; c_mode := 2; c_kb := 256; c_tok := TUser |} = true.
+  connect_ok_on gen_tables pairs {| c_pol := "Basic256Sha256"; c_mode := 2; c_kb := 512; c_skb := 512; c_tok := TUser |} = false /\
+  connect_ok_on gen_tables pairs {| c_pol := "Basic256Sha256"; c_mode := 2; c_kb := 512; c_skb := 512; c_tok := TAnon |} = true /\
+  connect_ok_on gen_tables pairs {| c_pol := "Basic256Sha256"; c_mode := 2; c_kb := 256; c_skb := 256; c_tok := TUser |} = true.
 Proof. vm_compute. auto. Qed.
 
 Print Assumptions C37_configs_spec.
@@ -90,5 +99,6 @@ Print Assumptions C37_limits_match_part7.
 Print Assumptions C37_all.
 Print Assumptions C37_every_config.
 Print Assumptions C37_statement.
+Print Assumptions C37_opn_chunk_all_key_size_pairs.
 Print Assumptions C37_enabled_pair_is_advertised.
 Print Assumptions C37_anonymous_always_resolvable.
